@@ -144,9 +144,65 @@ def run_case(ck, stats, rng, scen):
     sb.cleanup()
 
 
+def many_messages_stage(ck, rng, stats):
+    """what holds for one message holds for every message of a run: an invalid flags string is an error for each of them (none is
+    renamed), and a destination whose sub-directory disappears during the run is an error from then on (nothing is delivered
+    into the renamed directory)"""
+    from iorun import parse_trace
+    # (a) invalid characters in flags "..."
+    for bad in ('A1b', '0', 'T:', 'a,B', 'D-', 'S T'):
+        sb = mdrun.Sandbox()
+        src = sb.maildir('src')
+        names = []
+        for i in range(3):
+            sub = 'cur' if i % 2 else 'new'
+            names.append((sub, sb.add(src, sub, b'To: a\nSubject: s%d\n\nbody\n' % i, name='1500000000.%d_1.h' % i + (':2,R' if sub == 'cur' else ''))))
+        conf = sb.write_conf(('maildir "%s" {\n match all flags "%s"\n}\n' % (src, bad)).encode())
+        rc, out, err = sb.run([], conf=conf)
+        stats['evals'] += 1; stats['many'] = stats.get('many', 0) + 1
+        after = sb.snapshot(src)
+        if rc == 0 or sorted(after) != sorted(names):
+            ck.violation('flags %r (invalid) on three messages: exit %d, the maildir now holds %r' % (bad, rc, sorted(after)),
+                         {'stage': 'many', 'flags': bad, 'exit': rc, 'stderr': err[-300:].decode(errors='replace')})
+        sb.cleanup()
+    # (b) the new/ of the destination is renamed away after the first message was delivered
+    for replace_with_file in (False, True):
+        sb = mdrun.Sandbox()
+        src = sb.maildir('src'); dst = sb.maildir('dst')
+        for i in range(3):
+            sb.add(src, 'new', b'To: a\nSubject: v%d\n\nbody\n' % i, name='1500000000.%d_1.h' % i)
+        conf = sb.write_conf(('maildir "%s" {\n match all move "%s"\n}\n' % (src, dst)).encode())
+        log = os.path.join(sb.root, 'trace.log')
+        rc0, out0, err0 = sb.run([], conf=conf, env={'VFIO_LOG': log, 'VFIO_ROOT': sb.root}, preload=SHIM)
+        calls = parse_trace([l.rstrip('\n') for l in open(log, errors='replace')])
+        k = next((c['k'] for c in calls if c['call'] == 'closedir' and c['args'].endswith('/dst/new')), None)
+        sb.cleanup()
+        if k is None:
+            continue
+        sb = mdrun.Sandbox()
+        src = sb.maildir('src'); dst = sb.maildir('dst')
+        for i in range(3):
+            sb.add(src, 'new', b'To: a\nSubject: v%d\n\nbody\n' % i, name='1500000000.%d_1.h' % i)
+        conf = sb.write_conf(('maildir "%s" {\n match all move "%s"\n}\n' % (src, dst)).encode())
+        script = os.path.join(sb.root, 'swap.sh')
+        with open(script, 'w') as f:
+            f.write('#!/bin/sh\nmv %s/new %s/gone\n%s' % (dst, dst, ': > %s/new\n' % dst if replace_with_file else ''))
+        os.chmod(script, 0o755)
+        rc, out, err = sb.run([], conf=conf, env={'VFIO_PLAN': '%d:run=%s' % (k + 1, script), 'VFIO_ROOT': sb.root}, preload=SHIM)
+        stats['evals'] += 1; stats['many'] = stats.get('many', 0) + 1
+        gone = [n for n in os.listdir(os.path.join(dst, 'gone'))] if os.path.isdir(os.path.join(dst, 'gone')) else []
+        left = sb.snapshot(src)
+        if rc == 0 or len(gone) != 1 or len(left) != 2:
+            ck.violation('destination new/ %s after the first of three messages: exit %d, %d message(s) in the renamed directory, %d left in the source'
+                         % ('renamed away and replaced by a file' if replace_with_file else 'renamed away', rc, len(gone), len(left)),
+                         {'stage': 'many', 'swap': replace_with_file, 'exit': rc, 'stderr': err[-300:].decode(errors='replace')})
+        sb.cleanup()
+
+
 def run(ck):
     rng = ck.rng
     stats = dict(evals=0, nontrivial=set(), invalid=0)
+    many_messages_stage(ck, rng, stats)
     scens = []
     acts = ['move', 'flag_new', 'flag_cur', 'flags', 'move_flag', 'flag_move', 'flags_move']
     n = 160 if ck.tier == 'quick' else 3000
@@ -180,7 +236,7 @@ def run(ck):
         'distinct_nontrivial': len(stats['nontrivial']),
         'rule': 'one message per run; file name from 17 suffix shapes (absent, empty, sorted/unsorted/duplicate letters, all 52 letters, invalid: wrong version, '
                 'missing comma, digit, dash, second suffix), both subdirectories, action from {move, flag new, flag !new, flags, move+flag, flag+move, flags+move}, '
-                'destination maildir names with space, %, UTF-8 and ":" , 0-5 pre-existing candidate names and five runs with 128-300 of them in a row; a quarter of the runs and one per action and subdirectory with the rename failing with EXDEV (copy path); clock/pid/host/random pinned; '
+                'destination maildir names with space, %, UTF-8 and ":" , 0-5 pre-existing candidate names and five runs with 128-300 of them in a row; six runs of three messages under an invalid flags string and two in which the new/ of the destination is renamed away after the first delivery; a quarter of the runs and one per action and subdirectory with the rename failing with EXDEV (copy path); clock/pid/host/random pinned; '
                 'non-trivial = valid flags (the message must be renamed); distinct = distinct (name, subdir, action, prepopulation, letters)',
         'samples': scens[:4],
         'traces_validated_against_impl': stats['evals'],
